@@ -187,52 +187,137 @@ fn b(tok: &str) -> bool {
     tok == "1"
 }
 
+const READER_OPS: [&str; 15] = [
+    "Rseek", "Rskip", "Rru8", "Rri8", "Rru16", "Rri16", "Rru32", "Rri32", "Rrf32", "Rrb", "Rrs", "Rrp", "Rrc", "Rrls", "Rrl",
+];
+const WRITER_OPS: [&str; 18] = [
+    "Wseek", "Wskip", "Wal", "Waae", "Wwu8", "Wwi8", "Wwu16", "Wwi16", "Wwu32", "Wwi32", "Wwf32", "Wwb", "Wws", "Wws0", "Wwp", "Wwp0", "Wwl",
+    "Wwc",
+];
+
+/// one stream-reader operation on a LIVE reader (the object survives from one call to the next)
+fn reader_op(r: &mut BinArchiveReader, a: &BinArchive, toks: &[&str], i: usize) -> (String, usize) {
+    let arg = |k: usize| toks[i + k];
+    match toks[i] {
+        "Rseek" => {
+            r.seek(u(arg(1)));
+            (format!("pos:{}", r.tell()), 1)
+        }
+        "Rskip" => {
+            r.skip(u(arg(1)));
+            (format!("pos:{}", r.tell()), 1)
+        }
+        "Rru8" => { let x = num(r.read_u8()); (format!("{} pos:{}", x, r.tell()), 0) }
+        "Rri8" => { let x = num(r.read_i8()); (format!("{} pos:{}", x, r.tell()), 0) }
+        "Rru16" => { let x = num(r.read_u16()); (format!("{} pos:{}", x, r.tell()), 0) }
+        "Rri16" => { let x = num(r.read_i16()); (format!("{} pos:{}", x, r.tell()), 0) }
+        "Rru32" => { let x = num(r.read_u32()); (format!("{} pos:{}", x, r.tell()), 0) }
+        "Rri32" => { let x = num(r.read_i32()); (format!("{} pos:{}", x, r.tell()), 0) }
+        "Rrf32" => { let x = num(r.read_f32().map(|f| f.to_bits())); (format!("{} pos:{}", x, r.tell()), 0) }
+        "Rrb" => {
+            let x = match r.read_bytes(u(arg(1))) {
+                Ok(x) => format!("ok:{}", show_b(&x)),
+                Err(e) => err_kind(&e).to_string(),
+            };
+            (format!("{} pos:{}", x, r.tell()), 1)
+        }
+        "Rrs" => { let x = optstr(r.read_string()); (format!("{} pos:{}", x, r.tell()), 0) }
+        "Rrp" => { let x = optnum(r.read_pointer()); (format!("{} pos:{}", x, r.tell()), 0) }
+        "Rrc" => {
+            let at = r.tell();
+            let x = r.read_c_string();
+            (format!("{} pos:{}", optcstr(a, at, x), r.tell()), 0)
+        }
+        "Rrls" => { let x = optlabels(r.read_labels()); (format!("{} pos:{}", x, r.tell()), 0) }
+        "Rrl" => { let x = optstr(r.read_label(u(arg(1)))); (format!("{} pos:{}", x, r.tell()), 1) }
+        x => panic!("ba: bad reader op {}", x),
+    }
+}
+
+/// one stream-writer operation on a LIVE writer
+fn writer_op(w: &mut BinArchiveWriter, toks: &[&str], i: usize) -> (String, usize) {
+    let arg = |k: usize| toks[i + k];
+    match toks[i] {
+        "Wseek" => {
+            w.seek(u(arg(1)));
+            (format!("pos:{}", w.tell()), 1)
+        }
+        "Wskip" => {
+            w.skip(u(arg(1)));
+            (format!("pos:{}", w.tell()), 1)
+        }
+        "Wal" => { let x = unit(w.allocate(u(arg(1)), b(arg(2)))); (format!("{} pos:{}", x, w.tell()), 2) }
+        "Waae" => {
+            w.allocate_at_end(u(arg(1)));
+            (format!("ok pos:{}", w.tell()), 1)
+        }
+        "Wwu8" => { let x = unit(w.write_u8(arg(1).parse().unwrap())); (format!("{} pos:{}", x, w.tell()), 1) }
+        "Wwi8" => { let x = unit(w.write_i8(arg(1).parse().unwrap())); (format!("{} pos:{}", x, w.tell()), 1) }
+        "Wwu16" => { let x = unit(w.write_u16(arg(1).parse().unwrap())); (format!("{} pos:{}", x, w.tell()), 1) }
+        "Wwi16" => { let x = unit(w.write_i16(arg(1).parse().unwrap())); (format!("{} pos:{}", x, w.tell()), 1) }
+        "Wwu32" => { let x = unit(w.write_u32(arg(1).parse().unwrap())); (format!("{} pos:{}", x, w.tell()), 1) }
+        "Wwi32" => { let x = unit(w.write_i32(arg(1).parse().unwrap())); (format!("{} pos:{}", x, w.tell()), 1) }
+        "Wwf32" => { let x = unit(w.write_f32(f32::from_bits(arg(1).parse().unwrap()))); (format!("{} pos:{}", x, w.tell()), 1) }
+        "Wwb" => { let x = unit(w.write_bytes(&parse_b(arg(1)))); (format!("{} pos:{}", x, w.tell()), 1) }
+        "Wws" => { let x = unit(w.write_string(Some(&sjis(arg(1))))); (format!("{} pos:{}", x, w.tell()), 1) }
+        "Wws0" => { let x = unit(w.write_string(None)); (format!("{} pos:{}", x, w.tell()), 0) }
+        "Wwp" => { let x = unit(w.write_pointer(Some(u(arg(1))))); (format!("{} pos:{}", x, w.tell()), 1) }
+        "Wwp0" => { let x = unit(w.write_pointer(None)); (format!("{} pos:{}", x, w.tell()), 0) }
+        "Wwl" => { let x = unit(w.write_label(&sjis(arg(1)))); (format!("{} pos:{}", x, w.tell()), 1) }
+        "Wwc" => { let x = unit(w.write_c_string(sjis(arg(1)))); (format!("{} pos:{}", x, w.tell()), 1) }
+        x => panic!("ba: bad writer op {}", x),
+    }
+}
+
+// Object lifetime of the stream accessors: ONE BinArchiveReader serves a maximal run of consecutive reader operations and ONE
+// BinArchiveWriter a maximal run of consecutive writer operations (anything cached inside a long-lived reader / writer is
+// exercised: seeded changes C03-8, C04-7, C04-8); any other operation - a positional call, or the explicit no-op `fresh` - ends
+// the run, and the next stream operation constructs a new object at the remembered cursor.  The model has no object identity:
+// its stream operations are functions of (archive, cursor), so both regimes must print the same lines.
 pub fn run(toks: &[&str]) -> String {
     let endian = if toks[0] == "B" { Endian::Big } else { Endian::Little };
     let mut level: u8 = toks[1][1..].parse().unwrap();
     let mut a = BinArchive::new(endian);
-    let mut rpos: usize = 0; // reader cursor
+    let mut rpos: usize = 0; // reader cursor (carried from one reader object to the next)
     let mut wpos: usize = 0; // writer cursor
     let mut acc: Vec<String> = Vec::new();
     let mut i = 2;
-    macro_rules! rd {
-        ($m:ident) => {{
-            let mut r = BinArchiveReader::new(&a, rpos);
-            let res = r.$m();
-            rpos = r.tell();
-            res
-        }};
-        ($m:ident, $x:expr) => {{
-            let mut r = BinArchiveReader::new(&a, rpos);
-            let res = r.$m($x);
-            rpos = r.tell();
-            res
-        }};
-    }
-    macro_rules! wr {
-        ($m:ident) => {{
-            let mut w = BinArchiveWriter::new(&mut a, wpos);
-            let res = w.$m();
-            wpos = w.tell();
-            res
-        }};
-        ($m:ident, $x:expr) => {{
-            let mut w = BinArchiveWriter::new(&mut a, wpos);
-            let res = w.$m($x);
-            wpos = w.tell();
-            res
-        }};
-        ($m:ident, $x:expr, $y:expr) => {{
-            let mut w = BinArchiveWriter::new(&mut a, wpos);
-            let res = w.$m($x, $y);
-            wpos = w.tell();
-            res
-        }};
-    }
     while i < toks.len() {
+        if READER_OPS.contains(&toks[i]) {
+            let mut r = BinArchiveReader::new(&a, rpos);
+            while i < toks.len() && READER_OPS.contains(&toks[i]) {
+                let (res, used) = reader_op(&mut r, &a, toks, i);
+                acc.push(format!("{}{}", res, state(&a, level)));
+                i += 1 + used;
+            }
+            rpos = r.tell();
+            continue;
+        }
+        if WRITER_OPS.contains(&toks[i]) {
+            // The full state is printed after EVERY operation, also while the writer - which holds the `&mut` to the archive -
+            // is alive.  The library offers no way to look at the archive through a writer, so the archive is reached through a
+            // raw pointer for the duration of the run: `ap` is the only path used (the writer is built from it, the state is read
+            // from it, never from `a`), the two uses never overlap in time (a writer call has returned before the state is
+            // read, single thread).  This aliases a live `&mut` and is outside Rust's reference rules; it is confined to this
+            // test harness and is what makes per-operation observation of a long-lived writer possible.
+            let ap: *mut BinArchive = &mut a;
+            {
+                let mut w = BinArchiveWriter::new(unsafe { &mut *ap }, wpos);
+                while i < toks.len() && WRITER_OPS.contains(&toks[i]) {
+                    let (res, used) = writer_op(&mut w, toks, i);
+                    let st = state(unsafe { &*ap }, level);
+                    acc.push(format!("{}{}", res, st));
+                    i += 1 + used;
+                }
+                wpos = w.tell();
+            }
+            continue;
+        }
         let op = toks[i];
         let arg = |k: usize| toks[i + k];
         let (res, used): (String, usize) = match op {
+            // ends a run of stream operations: the next one gets a fresh reader / writer
+            "fresh" => ("ok".to_string(), 0),
             "from" => match BinArchive::from_bytes(&parse_b(arg(1)), endian) {
                 Ok(x) => {
                     a = x;
@@ -306,77 +391,6 @@ pub fn run(toks: &[&str]) -> String {
                 },
                 0,
             ),
-            // ---- stream reader (cursor rpos)
-            "Rseek" => {
-                rpos = u(arg(1));
-                (format!("pos:{}", rpos), 1)
-            }
-            "Rskip" => {
-                let mut r = BinArchiveReader::new(&a, rpos);
-                r.skip(u(arg(1)));
-                rpos = r.tell();
-                (format!("pos:{}", rpos), 1)
-            }
-            "Rru8" => (format!("{} pos:{}", num(rd!(read_u8)), rpos), 0),
-            "Rri8" => (format!("{} pos:{}", num(rd!(read_i8)), rpos), 0),
-            "Rru16" => (format!("{} pos:{}", num(rd!(read_u16)), rpos), 0),
-            "Rri16" => (format!("{} pos:{}", num(rd!(read_i16)), rpos), 0),
-            "Rru32" => (format!("{} pos:{}", num(rd!(read_u32)), rpos), 0),
-            "Rri32" => (format!("{} pos:{}", num(rd!(read_i32)), rpos), 0),
-            "Rrf32" => (format!("{} pos:{}", num(rd!(read_f32).map(|f| f.to_bits())), rpos), 0),
-            "Rrb" => {
-                let r = rd!(read_bytes, u(arg(1)));
-                (
-                    format!(
-                        "{} pos:{}",
-                        match r {
-                            Ok(x) => format!("ok:{}", show_b(&x)),
-                            Err(e) => err_kind(&e).to_string(),
-                        },
-                        rpos
-                    ),
-                    1,
-                )
-            }
-            "Rrs" => (format!("{} pos:{}", optstr(rd!(read_string)), rpos), 0),
-            "Rrp" => (format!("{} pos:{}", optnum(rd!(read_pointer)), rpos), 0),
-            "Rrc" => {
-                let at = rpos;
-                let r = rd!(read_c_string);
-                (format!("{} pos:{}", optcstr(&a, at, r), rpos), 0)
-            }
-            "Rrls" => (format!("{} pos:{}", optlabels(rd!(read_labels)), rpos), 0),
-            "Rrl" => (format!("{} pos:{}", optstr(rd!(read_label, u(arg(1)))), rpos), 1),
-            // ---- stream writer (cursor wpos)
-            "Wseek" => {
-                wpos = u(arg(1));
-                (format!("pos:{}", wpos), 1)
-            }
-            "Wskip" => {
-                let mut w = BinArchiveWriter::new(&mut a, wpos);
-                w.skip(u(arg(1)));
-                wpos = w.tell();
-                (format!("pos:{}", wpos), 1)
-            }
-            "Wal" => (format!("{} pos:{}", unit(wr!(allocate, u(arg(1)), b(arg(2)))), wpos), 2),
-            "Waae" => {
-                wr!(allocate_at_end, u(arg(1)));
-                (format!("ok pos:{}", wpos), 1)
-            }
-            "Wwu8" => (format!("{} pos:{}", unit(wr!(write_u8, arg(1).parse().unwrap())), wpos), 1),
-            "Wwi8" => (format!("{} pos:{}", unit(wr!(write_i8, arg(1).parse().unwrap())), wpos), 1),
-            "Wwu16" => (format!("{} pos:{}", unit(wr!(write_u16, arg(1).parse().unwrap())), wpos), 1),
-            "Wwi16" => (format!("{} pos:{}", unit(wr!(write_i16, arg(1).parse().unwrap())), wpos), 1),
-            "Wwu32" => (format!("{} pos:{}", unit(wr!(write_u32, arg(1).parse().unwrap())), wpos), 1),
-            "Wwi32" => (format!("{} pos:{}", unit(wr!(write_i32, arg(1).parse().unwrap())), wpos), 1),
-            "Wwf32" => (format!("{} pos:{}", unit(wr!(write_f32, f32::from_bits(arg(1).parse().unwrap()))), wpos), 1),
-            "Wwb" => (format!("{} pos:{}", unit(wr!(write_bytes, &parse_b(arg(1)))), wpos), 1),
-            "Wws" => (format!("{} pos:{}", unit(wr!(write_string, Some(&sjis(arg(1))))), wpos), 1),
-            "Wws0" => (format!("{} pos:{}", unit(wr!(write_string, None)), wpos), 0),
-            "Wwp" => (format!("{} pos:{}", unit(wr!(write_pointer, Some(u(arg(1))))), wpos), 1),
-            "Wwp0" => (format!("{} pos:{}", unit(wr!(write_pointer, None)), wpos), 0),
-            "Wwl" => (format!("{} pos:{}", unit(wr!(write_label, &sjis(arg(1)))), wpos), 1),
-            "Wwc" => (format!("{} pos:{}", unit(wr!(write_c_string, sjis(arg(1)))), wpos), 1),
             x => panic!("ba: bad op {}", x),
         };
         acc.push(format!("{}{}", res, state(&a, level)));
